@@ -156,10 +156,11 @@ Qed.
 
 Lemma inv_do_act now s a : inv now s -> inv now (do_act now s a).
 Proof.
-  intros H. destruct a as [t|t]; cbn [do_act].
+  intros H. destruct a as [t|t|r]; cbn [do_act].
   - destruct (get t s) as [tq|]; [|exact H]. destruct (stat tq); try exact H.
     apply inv_wake. apply inv_upd_keep; [reflexivity|exact H].
   - apply inv_send. exact H.
+  - exact H.
 Qed.
 
 Lemma inv_handler now acts : forall s, inv now s -> inv now (handler now acts s).
@@ -201,6 +202,9 @@ Proof. intros H. exact H. Qed.
 Lemma inv_end_turn now br p3 s : inv now s -> inv now (end_turn br p3 s).
 Proof. intros H. unfold end_turn. destruct (length p3 <? br)%nat; [apply inv_bump|]; exact H. Qed.
 
+Lemma trace_end_turn_w br p3 s : trace (end_turn br p3 s) = trace s.
+Proof. unfold end_turn. destruct (length p3 <? br)%nat; reflexivity. Qed.
+
 Lemma quiescent_end_turn br p3 s : quiescent (end_turn br p3 s) = quiescent s.
 Proof. unfold end_turn. destruct (length p3 <? br)%nat; reflexivity. Qed.
 
@@ -225,7 +229,7 @@ Qed.
 Lemma inv_pre_hooks now pre : forall s, inv now s -> inv now (pre_hooks now pre s).
 Proof.
   unfold pre_hooks. induction pre as [|a pre IH]; intros s H; cbn [fold_left]; [exact H|].
-  apply IH. destruct a as [t|t]; cbn [do_pre]; [exact H|apply inv_send_outside; exact H].
+  apply IH. destruct a as [t|t|r]; cbn [do_pre]; [exact H|apply inv_send_outside; exact H|exact H].
 Qed.
 
 Lemma inv_run_exec b tag now acts s : inv now s -> inv now (run_exec b tag now acts s).
@@ -240,19 +244,11 @@ Qed.
 (* the state in which the exec of message event e starts: the record and the element's hooks *)
 Definition ev_state (s : st) (e : nat) (now : N) (pre : list act) : st :=
   pre_hooks now pre (add_trace (REvent e now) s).
-Definition ev_acts (consumed : bool) (acts : list act) : list act := if consumed then [] else acts.
 
-(* every event of the run, executed from the state the bounded executor is in, fits *)
-Fixpoint all_within (b : budgets) (s : st) (e : nat) (now : N) (evs : list mevent) : Prop :=
-  match evs with
-  | [] => True
-  | (d, k, pre, acts) :: r =>
-      ~ KnownClass {| e_b := b; e_now := now + d; e_acts := ev_acts k acts; e_st := ev_state s e (now + d) pre |} /\
-      all_within b (run_event b s e (now + d) k pre acts) (S e) (now + d) r
-  end.
+Definition fits_exec (b : budgets) (now : N) (acts : list act) (s : st) : Prop :=
+  ~ KnownClass {| e_b := b; e_now := now; e_acts := acts; e_st := s |}.
 
-Lemma run_exec_quiescent b tag now acts s :
-  ~ KnownClass {| e_b := b; e_now := now; e_acts := acts; e_st := s |} -> quiescent (run_exec b tag now acts s) = true.
+Lemma run_exec_quiescent b tag now acts s : fits_exec b now acts s -> quiescent (run_exec b tag now acts s) = true.
 Proof.
   intros Hk. pose proof (quiescent_if_within_budget _ Hk) as [Hqa _].
   unfold queue_after, exec_bounded in Hqa; cbn [e_b e_now e_acts e_st] in Hqa.
@@ -260,18 +256,99 @@ Proof.
   unfold close. rewrite quiescent_add_trace, quiescent_end_turn. apply queues_nil. exact Hqa.
 Qed.
 
-Lemma run_events_inv b : forall evs s e now,
-  inv now s -> quiescent s = true -> all_within b s e now evs ->
-  inv (snd (run_events b s e now evs)) (fst (run_events b s e now evs)) /\
-  quiescent (fst (run_events b s e now evs)) = true.
+(* the invariant between events: all polls so far were timely, nothing is queued *)
+Definition calm (s : st) : Prop := polls_timely (trace s) /\ quiescent s = true.
+
+Lemma calm_inv now s : calm s -> inv now s.
 Proof.
-  induction evs as [|[[[d k] pre] acts] evs IH]; intros s e now Hi Hq Hw; cbn [run_events fst snd]; [auto|].
-  destruct Hw as [Hk Hw].
-  assert (Hi' : inv (now + d) (ev_state s e (now + d) pre)).
-  { unfold ev_state. apply inv_pre_hooks. apply inv_add_trace; [exact I|]. eapply inv_quiescent; eassumption. }
-  apply IH; [| |exact Hw].
-  - unfold run_event. apply inv_run_exec. exact Hi'.
-  - unfold run_event. apply run_exec_quiescent. exact Hk.
+  intros [Ht Hq]. apply queues_nil in Hq. split; [exact Ht|]. intros j Hj. rewrite Hq in Hj. destruct Hj.
+Qed.
+
+Lemma calm_run_exec b tag now acts s : inv now s -> fits_exec b now acts s -> calm (run_exec b tag now acts s).
+Proof.
+  intros Hi Hk. split; [apply (inv_run_exec b tag now acts s Hi)|apply run_exec_quiescent; exact Hk].
+Qed.
+
+Lemma calm_run_start b s now acts : calm s -> fits_exec b now acts (add_trace (RStart now) s) ->
+  calm (run_start b s now acts).
+Proof.
+  intros Hc Hk. unfold run_start. apply calm_run_exec; [|exact Hk].
+  apply inv_add_trace; [exact I|apply calm_inv; exact Hc].
+Qed.
+
+(* a shutdown leaves a fresh runtime: nothing queued, whatever was queued before *)
+Lemma calm_do_shutdown b g ts now s : polls_timely (trace s) -> calm (do_shutdown b g ts now s).
+Proof.
+  intros Ht. unfold do_shutdown.
+  set (s0 := {| tasks := tasks (init g ts); lq := []; cq := []; inj := []; stick := 0; gqi := g; trace := RReset now :: trace s |}).
+  assert (Hi : inv now s0) by (split; [constructor; [exact I|exact Ht]|intros j Hj; destruct Hj]).
+  assert (Hq : forall j, qin true j s0 \/ qin false j s0 -> False) by (intros j [H|[H|H]]; destruct H).
+  pose proof (inv_exec_event (b_local b) (b_rt b) (b_coop b) now [] s0 Hi) as H1.
+  unfold exec_event in *. cbn [handler fold_left] in *.
+  rewrite (drain_empty (Some (b_coop b)) true (b_local b) now s0 eq_refl) in *.
+  rewrite (drain_empty (Some (b_coop b)) false (b_rt b) now s0 eq_refl) in *.
+  cbn [app wake_deferred] in *. unfold ee_st in H1; cbn [fst] in H1.
+  split; [rewrite trace_end_turn_w; apply H1|rewrite quiescent_end_turn; reflexivity].
+Qed.
+
+(* every exec of the run, from the state the bounded executor is in, fits the budgets *)
+Definition within_catch_up (b : budgets) (start : list act) (sm : st * mode) (t : N) : Prop :=
+  match restart_due (snd sm) t with
+  | Some r => fits_exec b r (no_shutdown start) (add_trace (RStart r) (fst sm))
+  | None => True
+  end.
+
+Definition within_step (b : budgets) (start : list act) (sm : st * mode) (e : nat) (t : N) (k : bool) (pre acts : list act) : Prop :=
+  within_catch_up b start sm t /\
+  let sm' := catch_up b start sm t in
+  match snd sm' with
+  | Up => fits_exec b t (ev_acts k acts) (ev_state (fst sm') e t pre)
+  | Down _ => True
+  end.
+
+Fixpoint all_within (b : budgets) (g : N) (ts : list (bool * list op)) (start : list act)
+                    (sm : st * mode) (e : nat) (now : N) (evs : list mevent) : Prop :=
+  match evs with
+  | [] => match snd sm with
+          | Down (Some r) => fits_exec b r (no_shutdown start) (add_trace (RStart r) (fst sm))
+          | _ => True
+          end
+  | (d, k, pre, acts) :: r =>
+      within_step b start sm e (now + d) k pre acts /\
+      all_within b g ts start (step_event b g ts start sm e (now + d) k pre acts) (S e) (now + d) r
+  end.
+
+Lemma calm_after_exec b g ts now acts s : calm s -> calm (fst (after_exec b g ts now acts s)).
+Proof.
+  intros Hc. unfold after_exec. destruct (shutdown_req now acts) as [r|]; cbn [fst]; [|exact Hc].
+  apply calm_do_shutdown. apply Hc.
+Qed.
+
+Lemma calm_catch_up b start sm t : calm (fst sm) -> within_catch_up b start sm t -> calm (fst (catch_up b start sm t)).
+Proof.
+  intros Hc Hw. unfold catch_up, within_catch_up in *. destruct (restart_due (snd sm) t) as [r|]; cbn [fst]; [|exact Hc].
+  apply calm_run_start; assumption.
+Qed.
+
+Lemma calm_step_event b g ts start sm e t k pre acts :
+  calm (fst sm) -> within_step b start sm e t k pre acts -> calm (fst (step_event b g ts start sm e t k pre acts)).
+Proof.
+  intros Hc [Hw1 Hw2]. unfold step_event. cbn zeta in Hw2.
+  pose proof (calm_catch_up b start sm t Hc Hw1) as Hc'.
+  destruct (snd (catch_up b start sm t)); [|exact Hc'].
+  apply calm_after_exec. unfold run_event. apply calm_run_exec; [|exact Hw2].
+  apply inv_pre_hooks. apply inv_add_trace; [exact I|apply calm_inv; exact Hc'].
+Qed.
+
+Lemma run_events_calm b g ts start : forall evs sm e now,
+  calm (fst sm) -> all_within b g ts start sm e now evs ->
+  let r := run_events b g ts start sm e now evs in
+  calm (fst (last_restart b start (fst r) (snd r))).
+Proof.
+  induction evs as [|[[[d k] pre] acts] evs IH]; intros sm e now Hc Hw; cbn [run_events all_within] in *.
+  - cbn zeta. cbn [fst snd]. unfold last_restart. destruct (snd sm) as [|[r|]]; cbn [fst]; try exact Hc.
+    apply calm_run_start; assumption.
+  - destruct Hw as [Hs Hw]. apply IH; [|exact Hw]. apply calm_step_event; assumption.
 Qed.
 
 Lemma run_end_inv b s now : inv now s -> polls_timely (trace (run_end b s now)).
@@ -284,21 +361,23 @@ Proof.
   unfold close. constructor; [exact I|]. apply (inv_end_turn now (b_rt b) q3 s2 H2).
 Qed.
 
-(* a run: at_sim_start performing [start], then the message events, then the tear-down *)
+(* a run: at_sim_start performing [start], the message events with shutdowns and restarts,
+   the tear-down *)
 Definition run_within (b : budgets) (g : N) (ts : list (bool * list op)) (start : list act) (evs : list mevent) : Prop :=
-  ~ KnownClass {| e_b := b; e_now := 0; e_acts := start; e_st := add_trace (RStart 0) (init g ts) |} /\
-  all_within b (run_start b (init g ts) start) O 0 evs.
+  fits_exec b 0 start (add_trace (RStart 0) (init g ts)) /\
+  all_within b g ts start (boot b g ts start) O 0 evs.
 
 Theorem await_observes_enabling_instant b g ts start evs :
   run_within b g ts start evs -> polls_timely (run_model b g ts start evs).
 Proof.
   intros [Hk Hw]. unfold run_model.
-  assert (Hi : inv 0 (add_trace (RStart 0) (init g ts))).
-  { apply inv_add_trace; [exact I|]. split; [constructor|]. intros j Hj. destruct Hj. }
-  pose proof (run_events_inv b evs (run_start b (init g ts) start) O 0
-                (inv_run_exec b 4 0 start _ Hi) (run_exec_quiescent b 4 0 start _ Hk) Hw) as [H _].
-  destruct (run_events b (run_start b (init g ts) start) 0 0 evs) as [s now]; cbn [fst snd] in H.
-  unfold polls_timely. apply Forall_rev. apply run_end_inv. exact H.
+  assert (Hc0 : calm (init g ts)) by (split; [constructor|reflexivity]).
+  assert (Hb : calm (fst (boot b g ts start))).
+  { unfold boot. apply calm_after_exec. apply calm_run_start; assumption. }
+  pose proof (run_events_calm b g ts start evs _ O 0 Hb Hw) as H. cbn zeta in H.
+  destruct (run_events b g ts start (boot b g ts start) 0 0 evs) as [sm now]; cbn [fst snd] in H.
+  destruct (last_restart b start sm now) as [s now']; cbn [fst] in H.
+  unfold polls_timely. apply Forall_rev. apply run_end_inv. apply calm_inv. exact H.
 Qed.
 
 (* independently of any budget: an exec that starts with empty queues polls only tasks
@@ -317,3 +396,15 @@ Theorem consumed_event_timely bl br c now now0 pre s :
 Proof.
   intros Hi Hq. apply (inv_exec_event bl br c now [] _). apply inv_pre_hooks. eapply inv_quiescent; eassumption.
 Qed.
+
+(* a callback that requests a shutdown drives the runtime exactly like the same callback
+   without the request: the request is only consumed after the event (buf_process) *)
+Lemma handler_no_shutdown now acts : forall s, handler now acts s = handler now (no_shutdown acts) s.
+Proof.
+  unfold handler. induction acts as [|a acts IH]; intros s; cbn [no_shutdown filter fold_left]; [reflexivity|].
+  destruct a as [t|t|r]; cbn [fold_left]; apply IH.
+Qed.
+
+Theorem shutdown_request_keeps_exec bl br c now acts s :
+  exec_event bl br c now acts s = exec_event bl br c now (no_shutdown acts) s.
+Proof. unfold exec_event. rewrite <- handler_no_shutdown. reflexivity. Qed.
